@@ -15,23 +15,46 @@
 (*                     updated counter (two steps) instead of being decremented        *)
 EXTENDS Integers, Sequences, FiniteSets, TLC
 
-CONSTANTS Conns, MaxPkts, Defects,
+CONSTANTS
+          \* @type: Set(Int);
+          Conns,
+          \* @type: Int;
+          MaxPkts,
+          \* @type: Set(Str);
+          Defects,
+          \* @type: Bool;
           Record      \* keep the history of environment actions (off for liveness checking: it would never repeat a state)
 
-VARIABLES ctx,       \* "live" | "cancelled"
+VARIABLES
+          \* @type: Str;
+          ctx,       \* "live" | "cancelled"
+          \* @type: Str;
           acc,       \* acceptor: "poll" | "accept" | "closing" | "waiting" | "returned"
+          \* @type: Str;
           lis,       \* "open" | "closed"
+          \* @type: Set(Int);
           offered,   \* connections waiting to be accepted
+          \* @type: Int -> Str;
           cs,        \* [Conns -> connection goroutine state]
+          \* @type: Int -> Bool;
           armed,     \* [Conns -> BOOLEAN] a finite read deadline is armed
+          \* @type: Int -> Str;
           inp,       \* [Conns -> "none" | "partial" | "packet" | "eof"] what the client has sent and not yet been consumed
+          \* @type: Int -> Bool;
           gate,      \* [Conns -> BOOLEAN] the goroutine may pass its start gate (RemoteAddr)
+          \* @type: Int -> Bool;
           hgate,     \* [Conns -> BOOLEAN] the running handler may finish
+          \* @type: Int;
           wg,        \* wait group counter
+          \* @type: Int;
           gAcc,      \* serve_accepted gauge
+          \* @type: Int;
           gWg,       \* waitgroup_handle_routines_active gauge (what an operator reads)
+          \* @type: Int -> Int;
           pset,      \* [Conns -> value a finishing goroutine is about to store into gWg, or -1] (defect "gaugeStoreRace")
+          \* @type: Int;
           npk,       \* packets fed so far (bound)
+          \* @type: Seq(<<Str, Int>>);
           sched      \* history of environment actions (emitted as replay schedules)
 vars == << ctx, acc, lis, offered, cs, armed, inp, gate, hgate, wg, gAcc, gWg, pset, npk, sched >>
 
@@ -139,4 +162,29 @@ GaugeTracksLive == gWg = Cardinality({ c \in Conns : Running(c) })
 AtRestWhenIdle == (\A c \in Conns : cs[c] \in {"none", "done"}) => (gWg = 0 /\ gAcc = 0 /\ wg = 0)
 \* once cancelled, Serve returns (blocked reads reach their deadline, gates open)
 ShutdownCompletes == (ctx = "cancelled") ~> (acc = "returned")
+
+\* ---- inductive invariant (checked with Apalache for a fixed number of connections, ANY number of steps: --------
+\* Init => IndInv, IndInv /\ Next => IndInv', IndInv => Safety; TLC above explores reachable states for 2-3 connections)
+States == {"none", "spawned", "loop", "read", "handler", "exit", "done", "storing"}
+Live(c) == cs[c] \in {"loop", "read", "handler", "exit"}
+TypeOK == /\ ctx \in {"live", "cancelled"} /\ acc \in {"poll", "accept", "closing", "waiting", "returned"} /\ lis \in {"open", "closed"}
+          /\ offered \in SUBSET Conns /\ cs \in [Conns -> States] /\ armed \in [Conns -> BOOLEAN]
+          /\ inp \in [Conns -> {"none", "partial", "packet", "eof"}] /\ gate \in [Conns -> BOOLEAN] /\ hgate \in [Conns -> BOOLEAN]
+          /\ wg \in 0..Cardinality(Conns) /\ gAcc \in 0..Cardinality(Conns) /\ gWg \in 0..Cardinality(Conns)
+          /\ pset \in [Conns -> {-1}] /\ npk \in 0..MaxPkts /\ sched = <<>>
+IndInv == /\ TypeOK
+          /\ wg = Cardinality({ c \in Conns : Running(c) }) /\ gWg = wg
+          /\ gAcc = Cardinality({ c \in Conns : Live(c) })
+          /\ \A c \in Conns : cs[c] # "storing"
+          /\ \A c \in offered : cs[c] = "none"
+          /\ \A c \in Conns : cs[c] = "read" => armed[c]
+          /\ acc \in {"waiting", "returned"} => lis = "closed"
+          /\ acc = "returned" => wg = 0
+Safety == ServeReturnsLast /\ DeadlineArmed /\ GaugesSane /\ AtRestWhenReturned /\ GaugeTracksLive /\ AtRestWhenIdle
+\* constant initialisers for Apalache (--cinit): the design, and three defect switches as controls
+CInit == Conns = {1, 2, 3, 4} /\ MaxPkts = 3 /\ Defects = {} /\ Record = FALSE
+CInit6 == Conns = {1, 2, 3, 4, 5, 6} /\ MaxPkts = 3 /\ Defects = {} /\ Record = FALSE
+CInitNoWait == Conns = {1, 2, 3, 4} /\ MaxPkts = 3 /\ Defects = {"noWait"} /\ Record = FALSE
+CInitAddIn == Conns = {1, 2, 3, 4} /\ MaxPkts = 3 /\ Defects = {"addInGoroutine"} /\ Record = FALSE
+CInitStoreRace == Conns = {1, 2, 3, 4} /\ MaxPkts = 3 /\ Defects = {"gaugeStoreRace"} /\ Record = FALSE
 =============================================================================
